@@ -199,6 +199,16 @@ static void check_c11(const char * when) {
     if (((stb & STB_SRQ) != 0) != e6) mcx_viol("c11/mss", "%s: STB=0x%x SRE=0x%x: bit6 should be %d", when, stb, sre, e6);
 }
 
+/* MSS by definition: some summary bit that the registers imply is enabled in SRE */
+static int model_mss(const uint16_t * r, int nerr) {
+    uint16_t stb = 0;
+    if (r[SCPI_REG_ESR] & r[SCPI_REG_ESE]) stb |= STB_ESR;
+    if (r[SCPI_REG_OPER] & r[SCPI_REG_OPERE]) stb |= STB_OPS;
+    if (r[SCPI_REG_QUES] & r[SCPI_REG_QUESE]) stb |= STB_QES;
+    if (nerr > 0) stb |= STB_QMA;
+    return (stb & r[SCPI_REG_SRE] & 0xff & ~STB_SRQ) != 0;
+}
+
 static int apply(int op) {
     const op_t * o = &ops[op];
     uint16_t before[SCPI_REG_COUNT], after[SCPI_REG_COUNT];
@@ -262,6 +272,11 @@ static int apply(int op) {
         for (i = 0; i < nsrq; i++) {
             if (!(srq[i].stb & STB_SRQ)) mcx_viol("c12/srq-while-mss-0", "SRQ callback #%d with value 0x%x while STB=0x%x has MSS=0", i, srq[i].val, srq[i].stb);
             else if (srq[i].val != srq[i].stb) mcx_viol("c12/srq-value", "SRQ callback #%d value 0x%x but STB=0x%x at that instant", i, srq[i].val, srq[i].stb);
+        }
+        {   /* the same two clauses with MSS as the registers DEFINE it (C11), not as the status byte happens to show it */
+            int mb = model_mss(before, cnt_before), ma = model_mss(after, (int) SCPI_ErrorCount(&ctx));
+            if (!mb && ma && nsrq == 0) mcx_viol("c12/mss-rise-not-announced", "by the register contents MSS rises (ESR 0x%x/ESE 0x%x OPER 0x%x/0x%x QUES 0x%x/0x%x errors %d SRE 0x%x) but no SRQ callback was made; STB 0x%x -> 0x%x", after[SCPI_REG_ESR], after[SCPI_REG_ESE], after[SCPI_REG_OPER], after[SCPI_REG_OPERE], after[SCPI_REG_QUES], after[SCPI_REG_QUESE], (int) SCPI_ErrorCount(&ctx), after[SCPI_REG_SRE], before[SCPI_REG_STB], after[SCPI_REG_STB]);
+            if (!mb && !ma && nsrq > 0 && o->kind != OP_CMD) /* within one message MSS may rise and fall again */ mcx_viol("c12/srq-while-mss-0", "SRQ callback although by the register contents MSS is 0 before and after (STB 0x%x -> 0x%x, SRE 0x%x)", before[SCPI_REG_STB], after[SCPI_REG_STB], after[SCPI_REG_SRE]);
         }
         if (!(before[SCPI_REG_STB] & STB_SRQ) && (after[SCPI_REG_STB] & STB_SRQ)) {
             n_mss_rise++;
